@@ -148,6 +148,13 @@ def unary_ops(ck, Bitset, v, n, slices_full):
         if v.bit_length() > 0:
             for short_n in range(1, v.bit_length()):
                 ck.refused('ctor-too-wide', dict(c, length=short_n), lambda: Bitset(v, short_n))
+                # the same too-wide value handed in as bytes: minimal width and with leading zero bytes
+                for extra in (0, 1):
+                    by2 = v.to_bytes((v.bit_length() + 7) // 8 + extra, 'big')
+                    ck.refused('ctor-bytes-too-wide', dict(c, length=short_n, byte_string=by2), lambda: Bitset(by2, short_n))
+        # a byte string with leading zero bytes still fits
+        by3 = b'\x00\x00' + v.to_bytes((n + 7) // 8, 'big')
+        ck.call('ctor-bytes-leading-zero-bytes', dict(c, byte_string=by3), lambda: Bitset(by3, n), m)
     ck.callsame('int', c, lambda: int(b), v)
     ck.callsame('len', c, lambda: len(b), n)
     ck.callsame('bit_length', c, lambda: b.bit_length(), n)
